@@ -39,6 +39,11 @@ Oracles (only what the statement says)
     the default callbacks - no list/dict/set shared between result and input; no finite bottom-up rebuild of such a
     structure exists, so nothing is demanded of the result's shape.
 
+Key aliases: every hashable container term of <= 3 nodes as ONE object that is a value and a dict key (8 contexts): the
+key of an item is what visit returned for it, never the rebuilt counterpart of a container that happens to be the key.
+research is also run with a query callback, get_path also with its ``default`` keyword (an item that is there comes back
+itself - None, 0, '' and empty containers included).
+
 Two-entry dicts also take "look-alike" key pairs (0 and '0', -1 and '-1', 'a' and b'a', a tuple key next to its member ...)
 that a path lookup must keep apart.  A directed part (not an exhaustive space) runs the default callbacks, research+get_path
 and two keep-everything tables on chains nested deeper than the recursion limit and on containers of 2**k +- 1 items.
@@ -94,6 +99,10 @@ ACTIONS = ('T', 'F', 'S', 'X', 'K')      # True, False, same pair, value -> 'X',
 # dict the returned key is the new key; for an item of a list / tuple the recursive rebuild keeps the item's position
 # whatever key comes back.  Not run on structures with set members (what they do depends on the key of a set member).
 KEY_ACTIONS = ('T', 'F', 'N', 'W')
+
+
+_ABSENT = type('Absent', (), {'__repr__': lambda self: '<ABSENT>'})()
+DEFAULTS = (('sentinel', _ABSENT), ('None', None))      # values for get_path's `default` keyword
 
 
 class Budget(BaseException):
@@ -321,6 +330,40 @@ def gen_twins(shard):
                         yield ['T', t, ['T', b]]
 
 
+# Key aliases: a hashable container (tuple / frozenset) h that is *the same object* as a value somewhere and as a dict
+# key somewhere else.  remap's registry maps id(old container) -> rebuilt container; a key is not an item, the
+# recursive rebuild hands it to visit as it is and takes the key visit returns.
+KEYALIAS_UPTO = 3
+KEYALIAS_CONTEXTS = ('L-value-then-key', 'L-key-then-value', 'D-same-dict', 'D-own-value', 'D-deeper', 'T-key-and-value',
+                     'S-member-then-key', 'L-inner-as-key')
+
+
+def gen_keyalias(shard):
+    """shard = ('keyalias', context): every hashable container term h of <= KEYALIAS_UPTO nodes in the context."""
+    _VOC[:] = [LEAVES, None]
+    context = shard[1]
+    for n in range(1, KEYALIAS_UPTO + 1):
+        for h in gen_plain(n, True):
+            if not isinstance(h, list):
+                continue
+            if context == 'L-value-then-key':
+                yield ['L', h, ['D', [{'ref': 1}, 0], ['a', 1]]]
+            elif context == 'L-key-then-value':
+                yield ['L', ['D', [{'ref': 2}, 0]], h]
+            elif context == 'D-same-dict':
+                yield ['D', ['a', h], [{'ref': 1}, 1]]
+            elif context == 'D-own-value':
+                yield ['D', [{'ref': 1}, h]]
+            elif context == 'D-deeper':
+                yield ['D', ['a', ['T', h]], [0, ['D', [{'ref': 2}, 'a']]]]
+            elif context == 'T-key-and-value':
+                yield ['T', h, ['D', [{'ref': 1}, ['r', 1]]]]
+            elif context == 'S-member-then-key':
+                yield ['L', ['S', h], ['D', [{'ref': 2}, 0]]]
+            elif len(h) > 1 and isinstance(h[1], list):      # the first member of h, itself a container, is the key
+                yield ['L', h, ['D', [{'ref': 2}, 0], [0, 1]]]
+
+
 # ======================================================================================================
 # terms: construction
 
@@ -330,6 +373,24 @@ class Impossible(Exception):
 
 class _Node:
     __slots__ = ('tag', 'keys', 'kids', 'obj', 'busy', 'filled')
+
+
+class _KeyRef:
+    """Dict key spec {'ref': i}: the key is *the same object* as the i-th container of the term (a tuple / frozenset)."""
+    __slots__ = ('idx',)
+
+    def __init__(self, idx):
+        self.idx = idx
+
+
+def _parse_key(k, flags):
+    if isinstance(k, dict):
+        if 'ref' in k:
+            flags['refs'] += 1
+            flags['key_alias'] = True
+            return _KeyRef(k['ref'])
+        return ast.literal_eval(k['py'])
+    return k
 
 
 def _parse(spec, nodes, anc, flags):
@@ -354,7 +415,7 @@ def _parse(spec, nodes, anc, flags):
         flags['nested'] = True
     anc = anc | {idx}
     if nd.tag == 'D':
-        nd.keys = [ast.literal_eval(kv[0]['py']) if isinstance(kv[0], dict) else kv[0] for kv in spec[1:]]
+        nd.keys = [_parse_key(kv[0], flags) for kv in spec[1:]]
         nd.kids = [_parse(kv[1], nodes, anc, flags) for kv in spec[1:]]
         if len(nd.keys) == 2 and _is_lookalike(nd.keys):
             flags['lookalike'] = True
@@ -382,7 +443,7 @@ def _is_lookalike(keys):
 def build(spec):
     """-> (root object, flags).  Raises Impossible when no such Python object graph exists."""
     nodes, flags = [], {'refs': 0, 'cycle': False, 'tuple_cycle': False, 'nested': False, 'set_members': False,
-                        'lookalike': False}
+                        'lookalike': False, 'key_alias': False}
     top = _parse(spec, nodes, frozenset(), flags)
     queue = []
 
@@ -419,7 +480,14 @@ def build(spec):
             x.obj.extend(vals)
         elif x.tag == 'D':
             for k, v in zip(x.keys, vals):
-                x.obj[k] = v
+                if isinstance(k, _KeyRef):
+                    k = create(nodes[k.idx])
+                try:
+                    x.obj[k] = v
+                except TypeError:
+                    raise Impossible('unhashable key')
+            if flags['key_alias'] and len(x.obj) != len(vals):
+                raise Impossible('duplicate keys')
         else:
             try:
                 x.obj.update(vals)
@@ -860,14 +928,23 @@ def run_case(root, flags, prog, snap):
         if res[0] == 'raised':
             out.append(('C08|fn:research|raised', 'a list of (path, value)', 'raised ' + res[1], ()))
             return out
-        entries = res[1]
+        entries = [('', ent) for ent in res[1]]
+        if not big:
+            # research with a query callback (here: the scalar items): what it reports is retrievable just the same
+            res2 = guarded(lambda: I.research(root, query=lambda p, k, v: not isinstance(v, CONTAINERS)), cpu)
+            if res2[0] == 'ok':
+                entries += [('(query=scalars)', ent) for ent in res2[1]]
+            else:
+                out.append(('C08|fn:research(query=scalars)|%s' % ('terminates' if res2[0] == 'hang' else 'raised'),
+                            'a list of (path, value)', '%s %s' % (res2[0], res2[1]), ()))
+            check_input('research')
         reported = set()                      # at most one report per failing input class (tag set) and structure
-        for ent in entries:
+        for qual, ent in entries:
             try:
                 path, value = ent
                 path = tuple(path)
             except Exception:    # noqa
-                out.append(('C08|fn:research|result-shape', '(path, value) pairs', repr(ent)[:200], ()))
+                out.append(('C08|fn:research%s|result-shape' % qual, '(path, value) pairs', repr(ent)[:200], ()))
                 break
             if path == (None,) and value is root:
                 continue                      # the root's own entry is not a nested item
@@ -876,14 +953,30 @@ def run_case(root, flags, prog, snap):
                 v = got[1]
                 same = (v is value) if isinstance(value, CONTAINERS) else (type(v) is type(value) and v == value)
                 if same:
+                    # the same retrieval with get_path's documented keyword `default` (returned only when the path
+                    # cannot be followed): an item that is there comes back itself, whatever its value
+                    for dname, dflt in DEFAULTS[:1] if big else DEFAULTS:
+                        g2 = guarded(lambda: I.get_path(root, path, default=dflt))
+                        if g2[0] == 'ok' and ((g2[1] is value) if isinstance(value, CONTAINERS) else
+                                              (type(g2[1]) is type(value) and g2[1] == value)):
+                            continue
+                        if (qual, 'default', dname) not in reported:
+                            reported.add((qual, 'default', dname))
+                            out.append(('C08|fn:research%s+get_path(default=%s)|reported-path-not-retrievable'
+                                        % (qual, dname),
+                                        'get_path(root, %s, default=%s) is %s' % (ptxt(path), dname, rend(value)),
+                                        ('returned the default' if g2[1] is dflt else 'returned ' + rend(g2[1]))
+                                        if g2[0] == 'ok' else '%s %s' % (g2[0], g2[1]), ()))
                     continue
                 obs = 'get_path(root, %s) returned %s' % (ptxt(path), rend(v))
             else:
                 obs = 'get_path(root, %s) %s %s' % (ptxt(path), got[0], got[1])
             tags = ('path_through_set',) if walk_through_set(root, path) else ()
-            if tags not in reported:
-                reported.add(tags)
-                out.append(('C08|fn:research+get_path|reported-path-not-retrievable',
+            if qual and tags:
+                continue          # paths through set members (a listed finding): reported by the plain call above
+            if (qual, tags) not in reported:
+                reported.add((qual, tags))
+                out.append(('C08|fn:research%s+get_path|reported-path-not-retrievable' % qual,
                             'get_path(root, %s) is %s' % (ptxt(path), rend(value)), obs, tags))
         return out
 
@@ -1045,19 +1138,22 @@ def run(ctx):
     def shard(arg):
         _arm()
         n = arg[0]
-        twin = n == 'twin'
+        kal = n == 'keyalias'
+        twin = n == 'twin' or kal            # key-alias structures run the programs of a twin structure
         rich = (not twin) and n <= B['rich_keys_upto']
         t = inputs.Tally()
         hangs = 0
         try:
-            for spec in (gen_twins(arg) if twin else gen_roots(arg, rich)):
+            for spec in (gen_keyalias(arg) if kal else gen_twins(arg) if twin else gen_roots(arg, rich)):
                 try:
                     root, flags = build(spec)
                 except Impossible:
                     t.add('terms_not_constructible', 1)
                     continue
                 t.add('structures', 1)
-                if twin:
+                if kal:
+                    t.add('structures_key_aliases', 1)
+                elif twin:
                     t.add('structures_twins', 1)
                 elif arg[5]:
                     t.add('structures_vocabulary1', 1)
@@ -1095,6 +1191,7 @@ def run(ctx):
     rule = ('a case (structure, program) is non-trivial when the structure has a container nested inside the root or at '
             'least one back-reference (shared object or cycle)')
     shards = shard_list(sizes) + shard_list(range(1, B['N1'] + 1), voc=1) + [('twin', c) for c in TWIN_CONTEXTS]
+    shards += [('keyalias', c) for c in KEYALIAS_CONTEXTS]
     total = inputs.run_shards(ctx, shard, shards, part='remap+research', rule=rule)
 
     def big_shard(spec):
@@ -1165,6 +1262,11 @@ def run(ctx):
         '[t, t, t], [t, tbool, tfloat], [t, [t\']], [[t], t\'], {"a": t, 0: (t\',)}, (t, (t\',)); programs: default callbacks, '
         'research+get_path, path-echo and key-rewriting tables (no set members), the basic tables (one of each class of '
         'tables that agree on the cells occurring); %d structures' % (TWIN_UPTO, total.extra.get('structures_twins', 0)))
+    cov['bounds']['key aliases'] = (
+        'every hashable container term h (tuples / frozensets over 0, 1, "a") of <= %d nodes as one object that is a '
+        'value and a dict key: [h, {h: 0, "a": 1}], [{h: 0}, h], {"a": h, h: 1}, {h: h}, {"a": (h,), 0: {h: "a"}}, '
+        '(h, {h: h}), [{h}, {h: 0}], [h, {h[0]: 0, 0: 1}]; programs as for twins; %d structures'
+        % (KEYALIAS_UPTO, total.extra.get('structures_key_aliases', 0)))
     cov['bounds']['large structures (directed scenarios, NOT an exhaustive space)'] = (
         'chains of d nested containers for d = recursion limit - 1, + 1, 2 x + 1 (%s) over the kinds %s, one list shared '
         'by every level, innermost list pointing back to a mutable root; wide list / tuple / dict / set of %s items '
@@ -1190,8 +1292,10 @@ def run(ctx):
         "the root's own research entry ((None,), root) is not a nested item",
         'programs that depend on the path are only run where the statement fixes the path: len(path) everywhere, the '
         'full path only on structures without set members (the key of a set member is not specified)',
-        'research is called without a query (every item reported), get_path with the reported tuple paths only (no '
-        'dotted-string paths, no default); custom enter/exit callbacks and reraise_visit=False are outside the statement (it quantifies over visit '
+        'research is called without a query (every item reported) and with one query callback (the scalar items); '
+        'get_path with the reported tuple paths only (no dotted-string / list paths), in the plain form and - where that '
+        'retrieves the item - with default=<a fresh object> and default=None; a visit program returns its new pair as '
+        'a (key, value) tuple (the form the documentation shows; other 2-item sequences are not explored); custom enter/exit callbacks and reraise_visit=False are outside the statement (it quantifies over visit '
         'functions that keep, drop or rewrite items) and are not explored',
         'scalars are 0, 1, "a" (plus "X", "K" and path tuples produced by the programs); one representative of the other '
         'built-in scalar kinds (None, bool, float, empty / longer str, bytes, complex) on structures of <= %d nodes' % B['N1'],
